@@ -1,0 +1,14 @@
+//go:build verif
+// +build verif
+
+package node
+
+import (
+	zanredisdb "github.com/youzan/go-zanredisdb"
+)
+
+// lemmaPartitionAgreesWithSDK: the server's and the client SDK's partition
+// functions agree for every primary key and every partition count >= 1.
+func lemmaPartitionAgreesWithSDK(pk []byte, pnum int) (int, int) {
+	return GetHashedPartitionID(pk, pnum), zanredisdb.GetHashedPartitionID(pk, pnum)
+}
